@@ -29,6 +29,7 @@ type Program struct {
 	TimerRace     bool
 	Segmentation  bool
 	StubPkgs      map[string]bool
+	Params        map[string]int
 	RepoPrefix    string
 
 	mu          sync.Mutex
@@ -374,6 +375,10 @@ func (p *Program) NewMachine(opt Options) (*Machine, error) {
 	}
 	m.Stats.Funcs = map[string]int{}
 	m.Intr = map[string]Intrinsic{}
+	if os.Getenv("GSX_SLOW") != "" {
+		s.SlowThreshold = 2 * time.Second
+		s.OnSlow = func(d time.Duration) { fmt.Fprintf(os.Stderr, "SLOW %v [%s] @ %s\n", d, m.lastWhat, m.where()) }
+	}
 	registerIntrinsics(m)
 	// run initialisers
 	if err := m.runInits(); err != nil {
@@ -411,6 +416,12 @@ func (m *Machine) resetPath() {
 	m.nextGID = 0
 	m.ghost = map[string]Value{}
 	m.timerOf = map[*Value]*simTimer{}
+	m.fmtMemo = map[*Term]Str{}
+	m.hornerOf = map[*Term]*Term{}
+	m.defEq = map[*Term]*Term{}
+	m.rwMemo = nil
+	m.facts = nil
+	m.factsLen = 0
 }
 
 func (m *Machine) runInits() error {
@@ -512,7 +523,9 @@ func (m *Machine) site() (site, pos string, stack []string) {
 func (m *Machine) ndTerms() []*Term {
 	var ts []*Term
 	for _, r := range m.ndlog {
-		ts = append(ts, r.Terms...)
+		for _, t := range r.Terms {
+			ts = append(ts, m.rewrite(t))
+		}
 	}
 	return ts
 }
@@ -522,6 +535,7 @@ func (m *Machine) ndVals(vals map[int]uint64) []NdVal {
 	for _, r := range m.ndlog {
 		nv := NdVal{Tag: r.Tag, Kind: r.Kind}
 		for _, t := range r.Terms {
+			t = m.rewrite(t)
 			if t.IsConst() {
 				nv.Vals = append(nv.Vals, t.C)
 			} else {
